@@ -62,6 +62,14 @@ Get    == \E k \in Pick(Keys) : Do(<<"GET", k>>)
 Set    == \E k \in Pick(OptKeys), v \in Pick(OptVals), o \in Pick(SetOpts) : Do(<<"SET", k, v>> \o o)
 \* short expiries and the sleeps that decide them get their own actions so that simulation meets them often
 SetShort == Shorts # {} /\ \E k \in Pick(Keys), v \in Pick(Vals), o \in Pick({"EX", "PX"}), t \in Pick(Shorts) : Do(<<"SET", k, v, o, t>>)
+\* expiry semantics on keys that are alive get their own actions (a uniform draw from SetOpts meets them rarely):
+\* a valid expiry option, an absolute expiry already in the past (the key must end up absent), and a
+\* conditional / plain SET without expiry on a key that may carry a TTL (the TTL must be dropped)
+LiveKeys == {k \in Keys : Live(st, now, k)}
+SetTtl  == \E k \in Pick(OptKeys), v \in Pick(OptVals), o \in Pick({<<"EX", "@LONG">>, <<"PX", "@LONG">>, <<"EXAT", "@FUT">>, <<"PXAT", "@FUT">>}) :
+              Do(<<"SET", k, v>> \o o)
+SetPast == LiveKeys # {} /\ \E k \in Pick(LiveKeys), v \in Pick(OptVals), o \in Pick({"EXAT", "PXAT"}) : Do(<<"SET", k, v, o, "@PAST">>)
+SetCond == \E k \in Pick(Keys), v \in Pick(OptVals), c \in Pick({"NX", "XX"}) : Do(<<"SET", k, v, c>>)
 SetP   == \E k \in Pick(Keys), v \in Pick(Vals) : Do(<<"SET", k, v>>)
 Del    == \E ks \in Pick(KeySeqs) : Do(<<"DEL">> \o ks)
 Exists == \E ks \in Pick(KeySeqs) : Do(<<"EXISTS">> \o ks)
@@ -80,7 +88,7 @@ Sleep  == /\ open /\ now < MaxNow /\ now' = now + 1 /\ st' = Purge(st, now + 1)
 Init == st = EmptyStore /\ now = 1 /\ open = TRUE /\ last = [cmd |-> <<>>, r |-> <<>>] /\ hist = <<>>
 Sleep2 == Sleep
 Sleep3 == Sleep
-Next == Misc \/ Get \/ Set \/ SetP \/ SetShort \/ Del \/ Exists \/ MGet \/ MSet \/ Incr \/ IncrBy \/ Quit \/ Sleep \/ Sleep2 \/ Sleep3
+Next == Misc \/ Get \/ Set \/ SetP \/ SetTtl \/ SetPast \/ SetCond \/ SetShort \/ Del \/ Exists \/ MGet \/ MSet \/ Incr \/ IncrBy \/ Quit \/ Sleep \/ Sleep2 \/ Sleep3
 Spec == Init /\ [][Next]_vars
 
 view == <<st, now, open>>      \* `last` and `hist` are ghosts; facts about `last` are action properties
